@@ -29,7 +29,9 @@ def gen_cases(ctx):
     for i in range(n):
         hostile = i % 8 == 7
         nj = rng.choice([1, 2, 3, 4, 6, 7, 9, 12]) if not hostile else rng.choice([2, 4, 6])
-        ids = rng.sample(range(1, 256), nj)
+        # half of the scenarios use small IDs: node IDs and logical addresses share the small
+        # integers (1..5, 9..13, ...), which is where ID/address mix-ups show
+        ids = rng.sample(range(1, 256), nj) if i % 2 else rng.sample(range(1, 30), nj)
         base = rng.choice([15000, 40000, 80000, 150000])
         profs = {}
         for k in [0] + ids:
@@ -85,7 +87,7 @@ def _run(ctx, case, net):
     T = case["timeout"]
     t0 = max([world.now] + [nn.wnode.t for nn in net.nodes])
     join_end = t0 + int((2.0 + T + 1.0) * 1e9)
-    slot = 900 * W.MS
+    slot = 1400 * W.MS
     order = list(ids)
     phase2 = {k: join_end + i * slot for i, k in enumerate(order)}
     phase3 = join_end + len(order) * slot + 200 * W.MS
@@ -132,9 +134,11 @@ def _run(ctx, case, net):
                                              master.obj.dhcp_dict.values() else 0o5554, deadline_ms=2000)
                 r["table_after_lookup"] = dict(master.obj.dhcp_dict)
                 r["cc"] = net.call(nn, "check_connection", o.check_connection, deadline_ms=3000)
-                if tgt is not None:
-                    payload = bytes([k, tgt]) + b"mesh-send"  # single frame: fragmented multi-hop is C05's known finding
-                    r["send"] = (tgt, payload, net.call(nn, "send", o.send, tgt, "M", payload, deadline_ms=3000))
+                r["sends"] = []
+                for tgt2 in others[:4]:
+                    payload = bytes([k, tgt2]) + b"mesh-send"  # single frame: fragmented multi-hop is C05's known finding
+                    r["sends"].append((tgt2, payload, net.call(nn, "send", o.send, tgt2, "M", payload, deadline_ms=3000)))
+                    pump_until(nn, wn.t + 15 * W.MS)
             except W.VirtualDeadline:
                 r["phase2"] = "no return"
         else:
@@ -255,13 +259,15 @@ def _run(ctx, case, net):
             ctx.violation("check_connection/false-when-connected", "ID %d at %s: check_connection() = %r"
                           % (k, oct(r["addr_after_join"]), r.get("cc")), case)
             return
-        if r.get("send"):
-            tgt, payload, ret = r["send"]
+        for tgt, payload, ret in r.get("sends", []):
             ctx.clause("mesh_send_arrives")
             got = [e for e in applog[tgt] if e["msg"] == payload]
-            if ret is not True or len(got) != 1:
-                ctx.violation("mesh-send", "ID %d send(node_id=%d) returned %r and arrived %d times"
-                              % (k, tgt, ret, len(got)), case)
+            stray = [j for j in ids if j != tgt and any(e["msg"] == payload for e in applog[j])]
+            if ret is not True or len(got) != 1 or stray:
+                mech = "/address-equals-sender-id" if r["table_at_lookup"].get(tgt) == k else ""
+                ctx.violation("mesh-send" + mech, "ID %d (at %s) send(node_id=%d at %s) returned %r, arrived %d "
+                              "times at the target and at IDs %r" % (k, oct(r["addr_after_join"]), tgt,
+                                                                    oct(r["table_at_lookup"].get(tgt, 0)), ret, len(got), stray), case)
                 return
         if "release" in r:
             ctx.clause("release_and_rejoin")
